@@ -36,7 +36,7 @@ func TestVerifC34Child(t *testing.T) {
 
 func TestVerifC34Iceberg(t *testing.T) {
 	r := verifkit.Start(t, "C34", "iceberg")
-	defer r.Finish("crashbox over the Iceberg processor's decodeSegment (segments container: broker-written segments carrying hostile client batches, harness-wrapped mutations, every-byte truncations, noise) and parseIndex (indexes container): each call runs in a child process that logs the input index first, recovers panics and measures TotalAlloc; violation = panic, process death (fatal error / RLIMIT_AS), or > 64 MiB allocated by one call on an input <= 64 KiB; class = decoder + innermost function of the decoder + the allocating/indexing expression on that source line; non-trivial = input passes size/magic/framing so per-batch parsing is reached",
+	defer r.Finish("crashbox over the Iceberg processor's decodeSegment (segments container: broker-written segments carrying hostile client batches, harness-wrapped mutations, every-byte truncations, noise) and parseIndex (indexes container): each call runs in a child process that logs the input index first, hands the input over as a fresh exact-capacity slice (cap == len, so an over-read of the buffer end panics instead of reading slack), recovers panics and measures TotalAlloc; violation = panic, process death (fatal error / RLIMIT_AS), or > 64 MiB allocated by one call on an input <= 64 KiB; class = decoder + innermost function of the decoder + the allocating/indexing expression on that source line; non-trivial = input passes size/magic/framing so per-batch parsing is reached",
 		"child address space capped at 4 GiB (RLIMIT_AS) so that a giant allocation fails in the child instead of exhausting the machine; the race detector is off in this leg because it cannot run under RLIMIT_AS",
 		"parseIndex is not called by the processor's Decode today (dead code in the decoder package); its findings are reported under their own class")
 	dir := verifc34.CorpusDir()
